@@ -66,6 +66,7 @@ def run(ctx):
     ctx.floor("pushes in covers()", len(pushes), 1)
     fg = ("call", "fundamental_group::fundamental_group", (p(cv, 1),))
     for bi, v, t in pushes:
+        every_iteration_reaches(ctx, "T3-every-table-gives-a-cover", cv, bi, "table-loop->push", "some coset table of the enumeration does not give an entry of covers(): a conjugacy class of subgroups is missing")
         ok = v[0] == "call" and v[1] == "covers::cover_for_table" and v[2][0] == p(cv, 1) and v[2][2] == ("field", fg, "edge_to_word")
         src = iter_source(cv, v[2][1], g) if ok else None
         oks = src == ("call", "fpgroups::cosets::coset_tables", (("call", "fundamental_group::FundamentalGroup::nr_generators", (fg,)), ("field", fg, "relators"), p(cv, 2)))
